@@ -8,7 +8,7 @@ import z3, os
 from mirsym.values import *
 from mirsym.harness import *
 from mirsym.interp import RustPanic, Blocked, Unsupported
-from mirsym.report import Violation
+from mirsym.report import Violation, is_open_known
 from props.connlib import *
 
 LEVEL = 'model_checking'
@@ -170,7 +170,7 @@ def collect_simple(S, rep, prop, name, known=None):
             continue
         seen.add((label, key))
         v = Violation(prop, key, '%s/%s violated: %s' % (name, label, str(sc)[:300]), sc, name + '/' + label)
-        if key is None and os.environ.get('VERIF_NO_REPLAY') != '1':
+        if not is_open_known(prop, key) and os.environ.get('VERIF_NO_REPLAY') != '1':
             # only violations that would be reported are replayed (known findings were confirmed natively when recorded)
             try:
                 from mirsym import replay_net
